@@ -1,0 +1,46 @@
+//go:build verif
+
+// Contracts for package codecs, checked by /verif (gvc).  This file
+// contains no declarations; it is compiled only with the verif build tag.
+
+package codecs
+
+//@ global errTruncated-set: errTruncated != nil
+//@
+//@ -- RTP header geometry as functions of the packet bytes
+//@ spec off1(d []byte) int = 12 + int(d[0] & 0x0F) * 4
+//@ spec hasx(d []byte) bool = (d[0] & 0x10) != 0
+//@ spec xwords(d []byte) int = int(uint16(d[off1(d) + 2]) << 8 | uint16(d[off1(d) + 3]))
+//@ spec off2(d []byte) int = hasx(d) ? off1(d) + 4 + xwords(d) * 4 : off1(d)
+//@ -- the packet is long enough for the code to reach the VP8 payload descriptor
+//@ spec reaches(d []byte) bool = len(d) > off1(d) && (hasx(d) ==> len(d) >= off1(d) + 4 && len(d) >= off2(d) + 4)
+//@ -- VP8 payload descriptor: X, I, M bits
+//@ spec vx(d []byte) bool = (d[off2(d)] & 0x80) != 0
+//@ spec vi(d []byte) bool = (d[off2(d) + 1] & 0x80) != 0
+//@ spec vm(d []byte) bool = (d[off2(d) + 2] & 0x80) != 0
+//@ -- the picture id is present and rewritten
+//@ spec haspid(d []byte) bool = reaches(d) && vx(d) && len(d) > off2(d) + 1 && vi(d) && len(d) > off2(d) + 2 && (vm(d) ==> len(d) > off2(d) + 3)
+//@ spec pid15(d []byte) uint16 = (uint16(d[off2(d) + 2] & 0x7F) << 8) | uint16(d[off2(d) + 3])
+//@ spec pid7(d []byte) uint8 = d[off2(d) + 2] & 0x7F
+//@
+//@ func RewritePacket
+//@   safe
+//@   props C02 C12
+//@   modifies data[*]
+//@   ensures short: len(data) < 12 ==> result != nil && (forall k int :: 0 <= k && k < len(data) ==> data[k] == old(data[k]))
+//@   -- C02: the marker bit is only ever set, never cleared; nothing else in byte 1 changes
+//@   ensures marker: len(data) >= 12 ==> data[1] == (old(data[1]) | (setMarker ? 0x80 : 0))
+//@   -- C02: the sequence number field is the requested number, big-endian
+//@   ensures seqno: len(data) >= 12 ==> data[2] == uint8(seqno >> 8) && data[3] == uint8(seqno)
+//@   -- C02: version/padding/extension/CSRC-count byte, payload type, timestamp, SSRC, CSRCs, extension and payload bytes:
+//@   --      every byte other than 1..3 and the picture-id field is unchanged
+//@   ensures others-kept: forall k int :: 0 <= k && k < len(data) && k != 1 && k != 2 && k != 3
+//@        && !(delta != 0 && old(haspid(data)) && strings.EqualFold(codec, "video/vp8") && (k == old(off2(data)) + 2 || (old(vm(data)) && k == old(off2(data)) + 3)))
+//@        ==> data[k] == old(data[k])
+//@   -- C02: 15-bit picture id: new id = old id + delta (mod 2^15), M bit kept
+//@   ensures pid15: len(data) >= 12 && delta != 0 && old(haspid(data)) && strings.EqualFold(codec, "video/vp8") && old(vm(data)) ==>
+//@        pid15(data) == ((old(pid15(data)) + delta) & 0x7FFF) && vm(data) && isnil(result)
+//@   -- C02: 7-bit picture id: new id = old id + delta (mod 2^7), M bit stays clear
+//@   ensures pid7: len(data) >= 12 && delta != 0 && old(haspid(data)) && strings.EqualFold(codec, "video/vp8") && !old(vm(data)) ==>
+//@        pid7(data) == ((old(pid7(data)) + uint8(delta)) & 0x7F) && !vm(data) && isnil(result)
+//@   ensures no-delta: len(data) >= 12 && delta == 0 ==> isnil(result)
